@@ -62,4 +62,8 @@ def Heap.update (lt : κ → κ → Bool) (s : Heap κ) (h : Nat) : Heap κ :=
   | some p => { s with arr := siftDown lt (siftUp lt s.arr p) p }
   | none => s
 
+/-- key abstraction: replace every key by its image under `f` (the harness sends ranks: `f` = rank of the key in the
+order induced by the heap's comparator) -/
+def mapKey {κ' : Type} (f : κ → κ') (a : Array (Elem κ)) : Array (Elem κ') := a.map (fun e => ⟨e.h, f e.key⟩)
+
 end OmplModel.Heap
